@@ -11,7 +11,7 @@ class _RL(dict):
 UNIT_RLIMIT = _RL({"div_small": 80, "mul_redc": 80})      # unit -> --rlimit (Verus default is 10; 5x head-room over the measured maximum)
 UNIT_TIMEOUT = {"knuth": 1500, "addmul": 900, "mul_redc": 1200}     # unit -> seconds
 UNIT_EXPECT = {       # unit -> minimum number of verified functions on the unchanged tree (vacuity guard)
-    "core": 31, "add": 29, "kernels": 79, "addmul": 71, "addmul_n": 73, "mul": 51, "divd": 45, "div_small": 235, "knuth": 145, "mul_redc": 124, "basics": 22, "pow": 38, "divw": 54, "modular": 63, "spigot": 44, "gcd": 21, "forward": 57, "invring": 36, "bitlen": 70, "shifts": 131, "recip_table": 2, "gcdext": 64, "gcdw": 33, "bits": 60, "conv": 31, "lehmer": 31,
+    "core": 31, "add": 29, "kernels": 79, "addmul": 71, "addmul_n": 73, "mul": 51, "divd": 45, "div_small": 235, "knuth": 145, "mul_redc": 124, "basics": 22, "pow": 38, "divw": 54, "modular": 63, "spigot": 44, "gcd": 21, "forward": 57, "invring": 36, "bitlen": 70, "shifts": 131, "recip_table": 2, "gcdext": 64, "gcdw": 33, "bits": 60, "conv": 31, "lehmer": 31, "logs": 27,
 }
 
 COMMON_TRUST = [
@@ -230,15 +230,19 @@ PROPS = {
     "C13": dict(
         level="proof",
         level_text="Verus proves overflowing_pow, wrapping_pow, checked_pow, saturating_pow and pow against a^e mod 2^BITS with the exact overflow flag for every BITS/LIMBS (square-and-multiply loop with ghost true values), "
-                   "modular over the proved contracts of overflowing_mul / wrapping_mul, is_zero, bit(0), ONE",
-        level_note="ASSUMED: `exp >>= 1` halves the value (operator impl, C05/C20); NOT decided: log (base != 2) and root depend on libm f64 accuracy (neither verifier models libm) - only their panic/None "
-                   "conditions and log2 are Kani obligations per width (c13)",
-        technique="deductive contracts (Verus, all widths) for pow; Kani per width for log/root panic-freedom and None conditions",
-        units=["core", "basics", "kernels", "addmul", "addmul_n", "mul", "pow"],
-        kani=dict(features=None, quick=hs("c13"), thorough=hs("c13"), bounds="log/root: tiny widths only"),
-        explanation="loop invariant rr * ss^exp == a^e0 with result = rr mod M, this = ss mod M, overflow <=> rr >= M, base_overflow <=> ss >= M",
-        trusted=COMMON_TRUST,
-        not_decided=["log for base != 2 and root: values depend on libm (f64 log2/exp2) accuracy", "root termination"],
+                   "modular over the proved contracts of overflowing_mul / wrapping_mul, is_zero, bit(0), ONE; and log, checked_log, log2, checked_log2, log10, checked_log10 for every width: the result r satisfies "
+                   "base^r <= value < base^(r+1), the checked forms return None exactly for value 0 or base < 2 (and Some(0) when ten does not fit the type), no panic under the documented preconditions, and both correction loops terminate",
+        level_note="log is proved RELATIVE TO a one-sided assumption on the floating-point estimate: (approx_log2(self) / approx_log2(base)) rounded to a Uint exceeds floor(log) by at most one (libm is outside both verifiers; "
+                   "a too-small estimate only costs iterations). The three statements computing the estimate are replaced by a call to an opaque function carrying exactly that assumption (declared rewrite, reported on every run), "
+                   "`while let Some(trial) = ..` is rewritten to loop/break (declared). ASSUMED: `exp >>= 1` halves the value (operator impl, C05/C20), the generic Uint::from(2) / .to::<usize>() plumbing. "
+                   "NOT decided: root (Newton iteration seeded by a float; Kani per width at 3-8 bits: values, early exits, panics), the approx_* functions",
+        technique="deductive contracts (Verus, all widths) for pow and log; Kani per width for root and as counterexample source for log",
+        units=["core", "basics", "kernels", "addmul", "addmul_n", "mul", "pow", "bitlen", "conv", "logs"],
+        kani=dict(features=None, quick=hs("c13"), thorough=hs("c13"), bounds="log/root: tiny widths only (values at 2-8 bits; None/panic conditions at 1..250 bits)"),
+        explanation="pow: invariant result * base^exp = a^e over ghost true values. log: first loop keeps base^(result-1) <= value and ends with base^result <= value; second loop ends with value < base^(result+1); "
+                    "result < BITS bounds both loops and the final conversion",
+        trusted=COMMON_TRUST + ["floating-point estimate of log: at most floor(log)+1 (one-sided; libm log2, f64 division and rounding)"],
+        not_decided=["root values beyond 8 bits", "approx_log / approx_log2 / approx_log10 / approx_pow2 (floating point)"],
     ),
     "C11": dict(
         level="proof",
